@@ -56,7 +56,15 @@ pub async fn shard_data(shard_dir: &Path) -> Value {
         }
     }
     let idx = decode_index(shard_dir);
-    json!({"segs": segs, "idx": idx, "other": other})
+    let idx_path = shard_dir.join("segments.idx");
+    let (idx_ino, idx_hash) = match std::fs::metadata(&idx_path) {
+        Ok(m) => {
+            use std::os::unix::fs::MetadataExt;
+            (json!(m.ino()), json!(hash_file(&idx_path)))
+        }
+        Err(_) => (Value::Null, Value::Null),
+    };
+    json!({"segs": segs, "idx": idx, "other": other, "idx_ino": idx_ino, "idx_hash": idx_hash})
 }
 
 /// Decode segments.idx without the crate's loader (which deletes the tmp file and "recovers"):
